@@ -19,7 +19,7 @@ func init() {
 		Technique: "storage-layout analysis (key families of every Put/Delete/Find from canonical key terms): who-may-delete, writer/remover agreement, paired indices; must-facts for tombstone/existence guards; notification/effect equivalence at exits",
 		Explanation: "D1 the registry key is 'x'‖sha256(blob) and the stored value contains that blob; D2 the put path is reachable only with the tombstone 'd'‖id read as absent, delete writes 'd'‖id and no method (incl. the migration, shown by key-length facts) deletes family 'd'; " +
 			"D3 every family keyed by the container id that a put path can populate (x, o, eACL, nnsHasAlias, m) is deleted by Delete with the same id term on every effectful path (the alias: or was read empty), and the NNS deleteRecords call is made whenever the alias was non-empty; D4 the owner component of the 'o' key is produced by the same function of the blob at put time (submitted blob) and at delete/owner time (stored blob), 'x' and 'o' are written and deleted together; " +
-			"D5 Get, Owner, Alias, EACL, SetEACL, PutContainerSize reach a normal exit only with 'container exists' established; D6 PutSuccess/DeleteSuccess/SetEACLSuccess are emitted at one site each, outside loops, exactly on the paths that perform the state change, first argument = the container id, no other emitter. M: delete removes exactly when the owner lookup found an owner; list/containersOf scan the owner's ids for a non-empty owner and all ids for an empty one; the meta flag is written exactly when metaOnChain is set; loaders of the blob and the eACL.",
+			"D5 Get, Owner, Alias, EACL, SetEACL, PutContainerSize reach a normal exit only with 'container exists' established; D6 PutSuccess/DeleteSuccess/SetEACLSuccess are emitted at one site each, outside loops, exactly on the paths that perform the state change, first argument = the container id, no other emitter. M: delete removes exactly when the owner lookup found an owner; list/containersOf scan the owner's ids for a non-empty owner and all ids for an empty one; the meta flag is written exactly when metaOnChain is set; loaders of the blob and the eACL. R6: the id-keyed families are deleted only from Delete (registry and owner index also by the layout migration).",
 		NotCovered: "equality of the read API with a reference model over interleavings, NNS-side effects of alias cleanup, parsing of blobs with unusual version-field offsets (value level).",
 		Run:        runC04,
 	})
@@ -38,7 +38,7 @@ func init() {
 		Technique: "typestate/loop-shape analysis of the counting loop (membership test dominates acceptance, insertion on the counting path, collection scope), key-schema analysis of the roster families, must-facts at the acceptance and notification sites",
 		Explanation: "D1 roster keys are 'u'|'n' ‖ cid(32, guarded) ‖ vector(1) ‖ counter and 'r' ‖ cid ‖ index: scans per cid / (cid, vector) are exact; D2 CommitContainerListUpdate deletes every old 'n' and 'r' key of the cid, and for every scanned 'u' key deletes it and puts 'n'‖key[1:] with the same value, the old-'n' scan preceding the first 'n' put; " +
 			"D3 distinct-principal counting: in VerifyPlacementSignatures the signature check is reachable only through the exhausted exit of a membership loop comparing the candidate member key with a collection that outlives one signature iteration and is initialised per vector; the member key is inserted and the counter incremented only on the success branch; D3b a vector is accepted only under counter == REP read from family 'r' of the same cid, the nodes are scanned for the same vector index that selects sigs[i], and true is returned only after the REP scan is exhausted; " +
-			"D4 SubmitObjectPut notifies only if VerifyPlacementSignatures(cid read from the meta map, the meta bytes, the signatures) returned true and the meta flag of that cid is present. D6 each of the five loops of the commit is reached on every normal path (REP writes only for a non-nil list), ends only on exhaustion and no iteration goes round its operation. D7 the candidate member is an item of the scan of this vector's members only (a candidate list must start empty inside the per-vector loop and receive only items of that scan). M: counting, insertion and acceptance are guarded by the right side of their tests (edge-guard instead of dominance); the roster counter starts at the decoded last pending key exactly when there is one and at 0 otherwise, +1 per item.",
+			"D4 SubmitObjectPut notifies only if VerifyPlacementSignatures(cid read from the meta map, the meta bytes, the signatures) returned true and the meta flag of that cid is present. D6 each of the five loops of the commit is reached on every normal path (REP writes only for a non-nil list), ends only on exhaustion and no iteration goes round its operation. D7 the candidate member is an item of the scan of this vector's members only (a candidate list must start empty inside the per-vector loop and receive only items of that scan). M: counting, insertion and acceptance are guarded by the right side of their tests (edge-guard instead of dominance); the roster counter starts at the decoded last pending key exactly when there is one and at 0 otherwise, +1 per item. R6: a REP number is stored under its position in the submitted list.",
 		NotCovered: "the BE16 counter encoding across 127/255/256 (counterToBytes/counterFromBytes are value-level byte manipulations), submission order equality with a model.",
 		Run:        runC14,
 	})
@@ -483,6 +483,18 @@ func runC04(cx *CheckCtx) {
 				default:
 					cx.holds("tombstone-final", skey, "deletes family '"+fam+"'")
 				}
+				// by entry point: which ABI methods may reach a delete of an id-keyed family (confirmed by reading):
+				// the registration families go with Delete (and the layout migration), nothing else forgets a container's data
+				delOwner := map[string][]string{"x": {"Delete", "Remove", "_deploy"}, "o": {"Delete", "Remove", "_deploy"}, "eACL": {"Delete", "Remove"}, "nnsHasAlias": {"Delete", "Remove"}, "m": {"Delete", "Remove"}}
+				if own, ok := delOwner[fam]; ok {
+					in := false
+					for _, f := range own {
+						if m.GoName == f {
+							in = true
+						}
+					}
+					cx.decide(in, "who-may-delete", skey, "family '"+fam+"' deleted by its owner", "family '"+fam+"' is deleted outside "+strings.Join(own, "/")+": data of a live container (its eACL table, alias, registry or owner entry) can vanish without the container being deleted", s.Where(w))
+				}
 			case notifyName(s) == "PutSuccess":
 				cx.decide(inFrame(s, cnrPkg+".PutNamed") && s.Ctx.fn.Name() == "PutNamed", "single-emitter", skey, "emitted by PutNamed", "PutSuccess is emitted outside PutNamed", s.Where(w))
 			case notifyName(s) == "DeleteSuccess":
@@ -743,28 +755,42 @@ func runC14(cx *CheckCtx) {
 					return s.Inlined && s.Ctx.parent == nil && len(s.Args) == 1 && s.Val != nil && len(ps) >= 4 && s.Val == ps[3]
 				}) {
 					cnt := cs.Args[0] // the counter handed to the encoder
-					var loopPhi *Term
+					// cnt = (something that advances by one per item) + rest: either the counter itself is the
+					// loop variable (counter++; rest = 1, its start values are the loop phi's), or the loop
+					// variable is the item index from a constant c0 and the start value is rest + c0 − 1
+					var loopPhi, phiStart *Term
 					if cnt.Op == "sum" {
 						for _, x := range cnt.Args {
-							if x.Op == "phi" {
-								loopPhi = x
+							if x.Op != "phi" {
+								continue
+							}
+							if st, step, _, ok := loopVarOf(tb, x); ok && step == 1 {
+								loopPhi, phiStart = x, st
 							}
 						}
 					}
-					if loopPhi == nil || cnt != tb.binop(token.ADD, loopPhi, tb.constInt(1), intType) {
+					if os.Getenv("DBGROSTER") != "" {
+						fmt.Println("ROSTER cnt=", cnt, "loopPhi=", loopPhi, "start=", phiStart)
+					}
+					if loopPhi == nil {
 						continue
 					}
-					stepOK := false
+					rest := tb.binop(token.SUB, cnt, loopPhi, intType)
 					var inits []*Term
-					for _, al := range tb.Alts(loopPhi) {
-						if al == cnt {
-							stepOK = true
-						} else {
-							inits = append(inits, al)
-						}
-					}
-					if !stepOK || len(inits) == 0 {
+					var startVar *Term
+					if r, isC := rest.IntConst(); isC && r == 1 {
+						startVar = phiStart
+					} else if c0, isC := phiStart.IntConst(); isC {
+						startVar = tb.binop(token.ADD, rest, tb.constInt(c0-1), intType)
+					} else {
 						continue
+					}
+					inits = tb.Alts(startVar)
+					if len(inits) == 0 {
+						inits = []*Term{startVar}
+					}
+					if startVar.Op != "phi" {
+						startVar = nil // a plain value: the variable bound to the decoded key is looked up below
 					}
 					// the start values: 0 and the decoded key of the last item of the backwards scan
 					var nx, dec *Term
@@ -787,13 +813,13 @@ func runC14(cx *CheckCtx) {
 						}
 					}
 					// the variable that carries the start value: the phi bound to the decoded key
-					var start *Term
+					start := startVar
 					for id := int32(1); id < int32(len(a.lt.lits)); id++ {
 						l := a.lt.lits[id]
 						if l.Kind == KB && l.A.Op == "iternext" && l.A.Args[0].Op == "find" && l.A.Args[0].Args[0] == pre {
 							nx = l.A
 						}
-						if l.Kind == KEq && dec != nil {
+						if l.Kind == KEq && dec != nil && startVar == nil {
 							if l.A == dec && l.B.Op == "phi" {
 								start = l.B
 							}
@@ -898,6 +924,16 @@ func runC14(cx *CheckCtx) {
 			pr := keyParts(putR.Args[1])
 			cx.decide(len(pr) == 3 && pr[1] == cid && putR.Args[2].Op == "elem" && putR.Args[2].Args[0] == paramTerm(tb, m, "replicas"), "commit-swap", "container.CommitContainerListUpdate/r",
 				"'r'‖cid‖index → replicas[index]", "REP numbers are stored as "+putR.Args[1].pretty()+" → "+putR.Args[2].pretty(), putR.Where(w))
+			// the last key component is the *position* of the stored number (the readers take the vectors in key order)
+			if len(pr) == 3 && putR.Args[2].Op == "elem" {
+				idx := tb.indexOfElem(putR.Args[2])
+				last := pr[2]
+				for last.Op == "byte" || last.Op == "conv" {
+					last = last.Args[0]
+				}
+				cx.decide(idx != nil && a.Canon(putR.In, last) == a.Canon(putR.In, idx), "commit-swap", "container.CommitContainerListUpdate/r-position",
+					"the REP number of vector i is stored under position i", "the REP number "+putR.Args[2].pretty()+" is stored under "+pr[2].pretty()+", which is not its position in the list: repeated or descending REP numbers collapse or are reordered, the verifier reads another policy than the committed one", putR.Where(w))
+			}
 			// every item: each of the five loops ends only on exhaustion and no iteration goes round its operation
 			okEvery, whyEvery := true, ""
 			for _, s := range []*Site{delN, delU, delR, putN, putR} {
